@@ -30,6 +30,9 @@ CHECKS.update({
  "C13": ("IRV/SNTV/SequentialRCV vs their documented reference (STV m=1, Plurality, STV with a harness-written full-weight transfer) compared round by round under one path condition and the same recorded random stream; TopTwo and Alaska vs the composition written from the statement (finalists/kept candidates by definition tallies, reduced profile by spec image, independently constructed second-stage STV, round renumbering).", "§4 C13"),
  "C20": ("One harness per documented precondition with the violating quantity symbolic (integer seat counts incl. Alaska's stages, rational score-vector entries, rating limit/budget, ballot weights; defective ballot at every index) and both directions asserted: documented exception iff precondition violated. Quota names / duplicate candidates: direct evaluation (labelled). Generator parameter checks are covered with C14's harnesses when present.", "§4 C20"),
 })
+CHECKS.update({
+ "C08": ("Metamorphic relations as oracle: each deterministic rule and scoring utility is run on a profile and, under the same path condition, on its renamed / reordered / split (symbolic split point) / condensed / candidate-permuted variant, rounds compared (scores by z3 validity). Hash-seed independence: the same harness is explored in interpreters with different PYTHONHASHSEED and z3 decides whether some weight vector falls in a leaf of one interpreter but in no equal-outcome leaf of the other.", "§4 C08"),
+})
 NOT_APPLICABLE = {}
 def main():
     props = [json.loads(l)["id"] for l in open(os.path.join(ROOT, "properties.jsonl"))]
